@@ -16,7 +16,8 @@ open Tetl.C13
 inductive SpecId where
   | popcount | bswap | addSat | bitCast
   | strlen | strcmp | strncmp | strchr | memchr | memcmp | memcpy | memmove
-  | floor | trunc | round | rint | lrint | copysign | signbit | isnan | isinf | fma
+  | floor | ceil | trunc | round | rint | lrint | copysign | signbit | isnan | isinf | fma
+  | fmod | remainder   -- exactly specified (C17 7.12.10), specification: Tetl.C16.Fmt.fmod / remainder (property C16)
   | approx      -- approximating function: no exactly specified result (outside the statement of C13; C16 tolerant part)
   | infra       -- language plumbing, not a value-returning library operation
   deriving Repr, DecidableEq
@@ -30,9 +31,10 @@ def fnTable : List (String × SpecId) := [
   ("popcount", .popcount), ("byteswap", .bswap), ("add_sat", .addSat), ("bit_cast", .bitCast),
   ("strlen", .strlen), ("strcmp", .strcmp), ("strncmp", .strncmp), ("strchr", .strchr), ("memchr", .memchr),
   ("memcmp", .memcmp), ("memcpy", .memcpy), ("memmove", .memmove), ("wmemcpy", .memcpy), ("wmemmove", .memmove),
-  ("floor", .floor), ("trunc", .trunc), ("round", .round), ("rint_impl", .rint), ("lrint_impl", .lrint),
+  ("floor", .floor), ("ceil", .ceil), ("trunc", .trunc), ("round", .round), ("rint_impl", .rint), ("lrint_impl", .lrint),
   ("llrint_impl", .lrint), ("copysign", .copysign), ("signbit", .signbit), ("isnan", .isnan), ("isinf", .isinf),
-  ("fma", .fma),
+  ("fma", .fma), ("fmod", .fmod), ("remainder", .remainder),
+  ("sqrt", .approx),      -- correctly rounded at run time (builtin); gcem's Newton iteration in constant evaluation: C16 tolerant part
   ("acos", .approx), ("acosh", .approx), ("asin", .approx), ("asinh", .approx), ("atan", .approx), ("cos", .approx),
   ("exp", .approx), ("log", .approx), ("log10", .approx), ("log2", .approx), ("pow", .approx), ("sin", .approx),
   ("tan", .approx), ("tanh", .approx),
@@ -47,7 +49,8 @@ def builtinTable : List (String × SpecId) := [
   ("__builtin_strchr", .strchr), ("__builtin_memchr", .memchr), ("__builtin_memcmp", .memcmp),
   ("__builtin_memcpy", .memcpy), ("__builtin_memmove", .memmove), ("__builtin_wmemcpy", .memcpy),
   ("__builtin_wmemmove", .memmove),
-  ("__builtin_floorf", .floor), ("__builtin_floor", .floor), ("__builtin_truncf", .trunc), ("__builtin_trunc", .trunc),
+  ("__builtin_floorf", .floor), ("__builtin_floor", .floor), ("__builtin_ceilf", .ceil), ("__builtin_ceil", .ceil),
+  ("__builtin_truncf", .trunc), ("__builtin_trunc", .trunc),
   ("__builtin_roundf", .round), ("__builtin_round", .round),
   ("__builtin_rintf", .rint), ("__builtin_rint", .rint), ("__builtin_rintl", .rint),
   ("__builtin_lrintf", .lrint), ("__builtin_lrint", .lrint), ("__builtin_lrintl", .lrint),
@@ -55,6 +58,9 @@ def builtinTable : List (String × SpecId) := [
   ("__builtin_copysignf", .copysign), ("__builtin_copysign", .copysign), ("__builtin_signbit", .signbit),
   ("__builtin_isnanf", .isnan), ("__builtin_isnan", .isnan), ("__builtin_isnanl", .isnan), ("__builtin_isinf", .isinf),
   ("__builtin_fmaf", .fma), ("__builtin_fma", .fma),
+  ("__builtin_fmodf", .fmod), ("__builtin_fmod", .fmod), ("__builtin_fmodl", .fmod),
+  ("__builtin_remainderf", .remainder), ("__builtin_remainder", .remainder), ("__builtin_remainderl", .remainder),
+  ("__builtin_sqrtf", .approx), ("__builtin_sqrt", .approx), ("__builtin_sqrtl", .approx),
   ("__builtin_acosf", .approx), ("__builtin_acos", .approx), ("__builtin_acoshf", .approx), ("__builtin_acosh", .approx),
   ("__builtin_asinf", .approx), ("__builtin_asin", .approx), ("__builtin_asinhf", .approx), ("__builtin_asinh", .approx),
   ("__builtin_atanf", .approx), ("__builtin_atan", .approx), ("__builtin_cosf", .approx), ("__builtin_cos", .approx),
@@ -75,13 +81,20 @@ def calleeTable : List (String × SpecId × Status) := [
   ("strchr", .strchr, .proved), ("memchr", .memchr, .proved), ("memcmp", .memcmp, .proved),
   ("memcpy", .memcpy, .proved), ("memmove", .memmove, .proved),
   ("inline:dest", .memcpy, .corr),                       -- the open-coded loop of wmemcpy (run time only, C18)
-  ("gcem::floor", .floor, .corr), ("gcem::trunc", .trunc, .corr), ("gcem::round", .round, .corr),
+  ("gcem::floor", .floor, .proved), ("gcem::ceil", .ceil, .proved), ("gcem::trunc", .trunc, .proved),
+  ("gcem::round", .round, .proved),
   ("rint_fallback", .rint, .corr), ("lrint_fallback", .lrint, .corr),
   ("copysign_fallback", .copysign, .proved),
-  ("signbit_fallback", .signbit, .divergent),            -- +0.0 ↦ true, -NaN ↦ false; unreachable where __builtin_signbit exists
+  ("signbit_fallback", .signbit, .proved),               -- reads the sign bit of the representation (since b1ff629)
   ("inline:arg != arg", .isnan, .proved),
   ("inline:arg == etl::numeric_limits<Float>::infinity()", .isinf, .divergent),   -- misses -inf; unreachable where __builtin_isinf exists
   ("inline:x * y + z", .fma, .divergent),                -- two roundings; known finding F-c13-fma-constexpr-double-rounding
+  -- gcem::fmod = x - trunc(x / y) * y in floating point: inexact as soon as x/y is rounded, NaN for an infinite y.
+  -- Known finding F-C16-gcem-fmod-constexpr of property C16 (which evaluates both paths: ops cb/fmod, cb/remainder).
+  ("gcem::fmod", .fmod, .divergent),
+  -- the two returns of the constant-evaluated IEEE remainder, derived from gcem::fmod (same finding)
+  ("inline:r", .remainder, .divergent), ("inline:r < T(0) ? r + ay : r - ay", .remainder, .divergent),
+  ("gcem::sqrt", .approx, .corr),
   ("gcem::acos", .approx, .corr), ("gcem::acosh", .approx, .corr), ("gcem::asin", .approx, .corr),
   ("gcem::asinh", .approx, .corr), ("gcem::atan", .approx, .corr), ("gcem::cos", .approx, .corr),
   ("gcem::exp", .approx, .corr), ("gcem::log", .approx, .corr), ("gcem::log2", .approx, .corr),
@@ -96,7 +109,9 @@ def proofOf : List (String × String) := [
   ("inline:min", "add_sat_paths"),
   ("strlen", "strlen_paths"), ("strcmp", "strcmp_paths"), ("strncmp", "strncmp_paths"), ("strchr", "strchr_paths"),
   ("memchr", "memchr_paths"), ("memcmp", "memcmp_paths"), ("memcpy", "memcpy_paths"), ("memmove", "memmove_paths"),
-  ("copysign_fallback", "copysign_paths"), ("inline:arg != arg", "isnan_paths")]
+  ("gcem::floor", "floor_paths"), ("gcem::ceil", "ceil_paths"), ("gcem::trunc", "trunc_paths"),
+  ("gcem::round", "round_paths"),
+  ("copysign_fallback", "copysign_paths"), ("signbit_fallback", "signbit_paths"), ("inline:arg != arg", "isnan_paths")]
 
 def lookup {α : Type} (t : List (String × α)) (k : String) : Option α := (t.find? (·.1 == k)).map (·.2)
 
@@ -125,7 +140,7 @@ def provedHaveProofs : Bool :=
 
 /-- functions the anchors of the property name and that must appear in the inventory -/
 def expectedFns : List String :=
-  ["floor", "trunc", "round", "rint_impl", "lrint_impl", "llrint_impl", "copysign", "signbit", "isnan", "isinf", "fma",
+  ["floor", "ceil", "trunc", "round", "rint_impl", "lrint_impl", "llrint_impl", "copysign", "signbit", "isnan", "isinf", "fma",
    "popcount", "byteswap", "bit_cast", "strlen", "strcmp", "strncmp", "strchr", "memchr", "add_sat"]
 
 end Tetl.C13.Spec
